@@ -35,6 +35,8 @@ type c20case struct {
 	localBase bool
 	// anyDefs: untyped definitions referred to across packages
 	anyDefs bool
+	// noPermute: the case is about one particular argument order (colliding names: §3.11)
+	noPermute bool
 }
 
 const c20Mod = "example.com/mod"
@@ -184,6 +186,21 @@ func (c *c20case) inv(env *batch.Env, order []int, extra []*sg.SchemaFile, extra
 	for _, f := range extra {
 		files = append(files, batch.File{Path: filepath.Join("schemas", f.Path), Data: f.Data()})
 	}
+	// decoys: files of the same base name as the schemas, in the working directory and one level up from each schema
+	// directory - not part of the invocation, never referred to (relative references resolve against the referring
+	// document, not against where the tool happens to run)
+	have := map[string]bool{}
+	for _, f := range files {
+		have[f.Path] = true
+	}
+	for _, f := range c.fs.Files {
+		for _, d := range []string{filepath.Base(f.Path), filepath.Join("schemas", filepath.Base(f.Path)), filepath.Join(filepath.Dir(filepath.Dir(filepath.Join("schemas", f.Path))), filepath.Base(f.Path))} {
+			if !have[d] && !strings.HasPrefix(d, "..") {
+				have[d] = true
+				files = append(files, batch.File{Path: d, Data: []byte(`{"$id":"https://example.com/decoy/` + f.Name + `","type":"object","properties":{"decoyOnly":{"type":"string"}},"required":["decoyOnly"]}`)})
+			}
+		}
+	}
 	return &cli.Inv{Files: files, Args: append(args, inputs...)}
 }
 
@@ -201,6 +218,9 @@ func c20(ctx *Ctx) (*Outcome, error) {
 	for i := range cases {
 		cases[i] = genC20Case(ctx, i)
 	}
+	cases = append(cases, c20NameTakenCases()...)
+	n = len(cases)
+	results = make([]res, n)
 	stage.Parallel(n, func(i int) {
 		c := cases[i]
 		r := sg.NewRng(ctx.Seed, fmt.Sprintf("C20-run-%d", i))
@@ -295,6 +315,9 @@ func c20(ctx *Ctx) (*Outcome, error) {
 		rs.builds++
 		// (5) argument permutations
 		perms := allPerms(len(ident), ctx.N(5, 23), r)
+		if c.noPermute {
+			perms = nil
+		}
 		for _, p := range perms {
 			pr := cli.Run(ctx.Env, c.inv(ctx.Env, p, nil, nil))
 			rs.runs++
@@ -479,6 +502,38 @@ func c20(ctx *Ctx) (*Outcome, error) {
 		o.Inconclusive = fmt.Sprintf("only %d of %d cases accepted: %v", okCases, n, skipReasons)
 	}
 	return o, nil
+}
+
+// c20NameTakenCases: an earlier file declares a type whose Go name is the root type name of a later file (definition
+// "customer" of order.json, file customer.json under --resolve-extension .json): the later file's own definitions
+// are still declared.
+func c20NameTakenCases() []*c20case {
+	var out []*c20case
+	for v := 0; v < 4; v++ {
+		cust := &sg.Schema{Types: []string{"object"}, Props: []sg.Prop{{Name: "name", S: &sg.Schema{Types: []string{"string"}}}}}
+		order := &sg.Schema{ID: "https://example.com/nt/order", Types: []string{"object"}, Defs: []sg.Prop{{Name: "Customer", S: cust}},
+			Props: []sg.Prop{{Name: "buyer", S: &sg.Schema{Ref: "#/$defs/Customer", Target: cust}}}}
+		loyalty := &sg.Schema{Types: []string{"object"}, Props: []sg.Prop{{Name: "points", S: &sg.Schema{Types: []string{"integer"}, Min: sg.Fp(0)}}}, Required: []string{"points"}}
+		customer := &sg.Schema{ID: "https://example.com/nt/customer", Types: []string{"object"}, Defs: []sg.Prop{{Name: "Loyalty", S: loyalty}},
+			Props: []sg.Prop{{Name: "name", S: &sg.Schema{Types: []string{"string"}}}}}
+		if v%2 == 1 {
+			customer.Props = append(customer.Props, sg.Prop{Name: "tier", S: &sg.Schema{Ref: "#/$defs/Loyalty", Target: loyalty}})
+		}
+		fo := &sg.SchemaFile{Path: "order.json", Root: order, ID: order.ID, Name: "ntorder"}
+		fc := &sg.SchemaFile{Path: "customer.json", Root: customer, ID: customer.ID, Name: "ntcustomer"}
+		c := &c20case{fs: &sg.FileSet{Files: []*sg.SchemaFile{fo, fc}}, maps: map[string]c20map{}, flags: []string{"--resolve-extension", ".json"}}
+		if v >= 2 {
+			c.fs.Files = []*sg.SchemaFile{fc, fo}
+		}
+		// both roots and the definition "customer" want the name Customer; which schema ends up behind that name is not
+		// asserted here - only that every name is declared, and declared once
+		c.maps["ntorder"] = c20map{pkg: c20Mod + "/defpkg", out: "defpkg/default.go", rootType: "Order"}
+		c.maps["ntcustomer"] = c20map{pkg: c20Mod + "/defpkg", out: "defpkg/default.go", rootType: "Customer"}
+		c.noPermute = true
+		c.sig = fmt.Sprintf("name-taken layout v=%d", v)
+		out = append(out, c)
+	}
+	return out
 }
 
 // addLocalBase gives a schema a definition "Base" of its own and a property composed from it: the same local
